@@ -7,6 +7,8 @@ func init() {
 		NotDecided:  "That concurrent results equal the sequential ones beyond race-freedom of the enumerated state; liveness; the mutex in addString is not required (lost updates still return private copies).",
 		Assumptions: []string{"A3", "A5"},
 		Run: func(c *Ctx) {
+			// round 13: a pool's New allocates
+			rulePoolFresh(c)
 			// round 11: a lock that is not released on some path blocks every later user
 			ruleLockPaired(c)
 			ruleSharedRecvWrites(c)
